@@ -80,6 +80,7 @@ struct BodyWalker {
     lets: Vec<Value>,
     nested_fns: Vec<Value>,
     attrs: Vec<Value>,
+    awaits: Vec<Value>,
     closure_depth: usize,
 }
 impl BodyWalker {
@@ -91,6 +92,7 @@ impl BodyWalker {
             lets: vec![],
             nested_fns: vec![],
             attrs: vec![],
+            awaits: vec![],
             closure_depth: 0,
         }
     }
@@ -137,6 +139,11 @@ impl<'ast> Visit<'ast> for BodyWalker {
     }
     fn visit_attribute(&mut self, a: &'ast syn::Attribute) {
         self.attrs.push(json!({"path": ts(a.path()), "span": rng(a.span())}));
+    }
+    fn visit_expr_await(&mut self, e: &'ast syn::ExprAwait) {
+        // the `.await` suffix itself: from the dot to the end of the keyword
+        self.awaits.push(json!({"span": [start(e.dot_token.span()), end(e.await_token.span())], "in_closure": self.closure_depth > 0}));
+        visit::visit_expr_await(self, e);
     }
     fn visit_expr_for_loop(&mut self, e: &'ast syn::ExprForLoop) {
         self.loops.push(json!({
@@ -284,6 +291,7 @@ impl Indexer {
             "sig_span": rng(sig.span()),
             "fn_kw": start(sig.fn_token.span()),
             "is_async": sig.asyncness.is_some(),
+            "async_kw": sig.asyncness.as_ref().map(|a| rng(a.span())),
             "is_unsafe": sig.unsafety.is_some(),
             "ret": match &sig.output { syn::ReturnType::Default => Value::Null, syn::ReturnType::Type(_, t) => rng(t.span()) },
             "paren_close": end(sig.paren_token.span.close()),
@@ -304,6 +312,7 @@ impl Indexer {
             v["lets"] = Value::Array(w.lets);
             v["nested_fns"] = Value::Array(w.nested_fns);
             v["body_attrs"] = Value::Array(w.attrs);
+            v["awaits"] = Value::Array(w.awaits);
         }
         v
     }
